@@ -237,9 +237,20 @@ pub fn build(spec: &Spec) -> World {
         }
         StageFault::BadlySignedLink => {
             let name = w.layout.steps[si].name.clone();
-            for f in w.links.iter_mut().filter(|f| f.step == name) {
-                if let Body::Link { sigs, .. } = &mut f.body {
+            let idx: Vec<usize> = w.links.iter().enumerate().filter(|(_, f)| f.step == name).map(|(i, _)| i).collect();
+            if idx.len() >= 2 && spec.fault_step % 2 == 1 {
+                // two-party step: the first functionary's link carries a broken signature of its own next to a good one
+                // by the second functionary, whose own link is fine - one functionary must not count twice
+                let second = w.links[idx[1]].filed_under.clone();
+                if let Body::Link { sigs, .. } = &mut w.links[idx[0]].body {
                     sigs[0].corrupt = Some(Corrupt::BitFlip(100));
+                    sigs.push(SigEntry::good(&second));
+                }
+            } else {
+                for f in w.links.iter_mut().filter(|f| f.step == name) {
+                    if let Body::Link { sigs, .. } = &mut f.body {
+                        sigs[0].corrupt = Some(Corrupt::BitFlip(100));
+                    }
                 }
             }
         }
